@@ -1,5 +1,6 @@
 import FtdcVerif.Lemmas.Hdr
 import FtdcVerif.Lemmas.CodeTie
+import FtdcVerif.Lemmas.HdrCorrected
 /-!
 # C12 — HDR histogram honours its precision and counting contract
 
@@ -92,6 +93,33 @@ example : Valid 1 2048 3 := ⟨by decide, by decide, by decide, by decide⟩
 example : (recordValue (new 1 2048 3) 2048).isSome = true :=
   record_succeeds ⟨by decide, by decide, by decide, by decide⟩ 2048 (by decide)
 
+/-- `RecordCorrectedValue(v, expectedInterval)` records exactly the values it stands for - `v` and, for a stall
+(`v > expectedInterval > 0`), every `v - k·expectedInterval` that is still at least the interval -, each once:
+no error, and the histogram equals the one obtained by recording that list value by value (so the total grows by
+the length of the list and the counting contract above applies to it) -/
+theorem corrected_value_is_its_values (hv : Valid minV maxV s) (vs : List Int) (v ei : Int) (h0 : 0 ≤ v) (hle : v ≤ maxV) :
+    recordCorrected (recordAll (new minV maxV s) vs) v ei =
+      (recordAll (recordAll (new minV maxV s) vs) (correctedValues v ei), true) := by
+  have hs := (recordAll_spec vs _ (new_inv minV maxV s)).2.1
+  have wf0 := new_wf hv
+  have f := hs.fields
+  have wf : WF (recordAll (new minV maxV s) vs) := by
+    have hh : (new minV maxV s).highest = (recordAll (new minV maxV s) vs).highest := by
+      have := hs; unfold SameCfg at this; injection this with _ h2
+    have hg : (new minV maxV s).sigfigs = (recordAll (new minV maxV s) vs).sigfigs := by
+      have := hs; unfold SameCfg at this; injection this with _ _ _ h4
+    obtain ⟨w1, w2, w3, w4, w5, w6, w7, w8⟩ := wf0
+    constructor <;> simp only [← f, ← hh, ← hg] <;> assumption
+  have h63 : v < 2 ^ 63 := by have := hv.maxLt; omega
+  apply recordCorrected_spec wf v ei _ h63
+  rw [← accepts_congr hs]
+  have := index_in_range wf0 (v := v.toNat) (by show v.toNat ≤ maxV; omega)
+  have hvn : ((v.toNat : Nat) : Int) = v := by omega
+  simp only [accepts, Bool.and_eq_true, decide_eq_true_eq]
+  refine ⟨⟨by omega, ?_⟩, ?_⟩
+  · exact this.1
+  · exact this.2
+
 /-! ### The Go text itself (regenerated)
 
 `Ftdc.Gen.Hdr.*` (Gen/Code.lean) is rewritten from `hdrhist/hdr.go` by the translator on every run of this
@@ -103,7 +131,8 @@ theorems after it restate the property's index and range clauses about the trans
 section go
 open Ftdc.CodeTie
 
-theorem go_code_is_model {h : Hist} (wf : WF h) (v : Nat) (hv : v < 2 ^ 63) (b s : Nat) :
+theorem go_code_is_model {h : Hist} (wf : WF h) (hh : h.halfMag ≤ 20) (v : Nat) (hv : v < 2 ^ 63) (b s : Nat)
+    (hb : b ≤ 64) (hs : s < 2 ^ 30) (hvb : v >>> (b + h.unitMag) < 2 ^ 31) :
     Gen.Hdr.bitLen (v : Int) = (bitLen v : Int) ∧
     Gen.Hdr.getBucketIndex (cfgOf h) v = (getBucketIndex h v : Int) ∧
     Gen.Hdr.getSubBucketIdx (cfgOf h) v b = (getSubBucketIdx h v b : Int) ∧
@@ -116,10 +145,17 @@ theorem go_code_is_model {h : Hist} (wf : WF h) (v : Nat) (hv : v < 2 ^ 63) (b s
     Gen.Hdr.highestEquivalentValue (cfgOf h) v = (highestEquiv h v : Int) ∧
     Gen.Hdr.medianEquivalentValue (cfgOf h) v = (medianEquiv h v : Int) ∧
     Gen.Hdr.getCountAtIndex (cfgOf h) b s = getCountAt h b s :=
-  ⟨bitLen_tie v, getBucketIndex_tie wf v hv, getSubBucketIdx_tie h v b, countsIndex_tie h b s,
-   countsIndexFor_tie wf v hv, valueFromIndex_tie h b s, sizeOfEquivalentValueRange_tie wf v hv,
-   lowestEquivalentValue_tie wf v hv, nextNonEquivalentValue_tie wf v hv, highestEquivalentValue_tie wf v hv,
-   medianEquivalentValue_tie wf v hv, getCountAtIndex_tie h b s⟩
+  ⟨bitLen_tie v, getBucketIndex_tie wf v hv hh, getSubBucketIdx_tie h v b hvb, countsIndex_tie h b s hb hs hh wf.halfCount_eq,
+   countsIndexFor_tie wf v hv hh, valueFromIndex_tie h b s, sizeOfEquivalentValueRange_tie wf v hv hh,
+   lowestEquivalentValue_tie wf v hv hh, nextNonEquivalentValue_tie wf v hv hh, highestEquivalentValue_tie wf v hv hh,
+   medianEquivalentValue_tie wf v hv hh, getCountAtIndex_tie h b s hb hs hh wf.halfCount_eq⟩
+
+/-- a configuration `New` can establish has at most 2^18 sub-buckets: the `int32` arithmetic of the index functions
+(exact in the translation: `Go.w32`) never overflows -/
+theorem halfMag_le (hv : Valid minV maxV s) : (new minV maxV s).halfMag ≤ 20 := by
+  obtain ⟨_, h18, _⟩ := subMag_cases s hv.s1 hv.s5
+  show (if subMag s < 1 then 1 else subMag s) - 1 ≤ 20
+  split <;> omega
 
 theorem lt63 (hv : Valid minV maxV s) {v : Nat} (hle : v ≤ maxV) : v < 2 ^ 63 := by
   have := hv.maxLt; omega
@@ -129,14 +165,15 @@ theorem lt63 (hv : Valid minV maxV s) {v : Nat} (hle : v ≤ maxV) : v < 2 ^ 63 
 theorem go_index_in_range (hv : Valid minV maxV s) (v : Nat) (hle : v ≤ maxV) :
     0 ≤ Gen.Hdr.countsIndexFor (cfgOf (new minV maxV s)) v ∧
     Gen.Hdr.countsIndexFor (cfgOf (new minV maxV s)) v < (cfgOf (new minV maxV s)).countsLen := by
-  rw [countsIndexFor_tie (new_wf hv) v (lt63 hv hle)]
+  rw [countsIndexFor_tie (new_wf hv) v (lt63 hv hle) (halfMag_le hv)]
   exact index_in_range (new_wf hv) (v := v) hle
 
 /-- hdr.go's `lowestEquivalentValue` / `highestEquivalentValue` bracket the value. -/
 theorem go_value_in_reported_range (hv : Valid minV maxV s) (v : Nat) (hle : v ≤ maxV) :
     Gen.Hdr.lowestEquivalentValue (cfgOf (new minV maxV s)) v ≤ v ∧
     (v : Int) ≤ Gen.Hdr.highestEquivalentValue (cfgOf (new minV maxV s)) v := by
-  rw [lowestEquivalentValue_tie (new_wf hv) v (lt63 hv hle), highestEquivalentValue_tie (new_wf hv) v (lt63 hv hle)]
+  rw [lowestEquivalentValue_tie (new_wf hv) v (lt63 hv hle) (halfMag_le hv),
+    highestEquivalentValue_tie (new_wf hv) v (lt63 hv hle) (halfMag_le hv)]
   have := value_in_range (new_wf hv) hle
   omega
 
@@ -145,7 +182,7 @@ theorem go_range_width_bound (hv : Valid minV maxV s) (v : Nat) (hle : v ≤ max
     (Gen.Hdr.sizeOfEquivalentValueRange (cfgOf (new minV maxV s)) v = ((2 ^ (new minV maxV s).unitMag : Nat) : Int) ∧
         ((2 ^ (new minV maxV s).unitMag : Nat) : Int) ≤ max 1 minV) ∨
     Gen.Hdr.sizeOfEquivalentValueRange (cfgOf (new minV maxV s)) v * 10 ^ s ≤ v := by
-  rw [sizeOfEquivalentValueRange_tie (new_wf hv) v (lt63 hv hle)]
+  rw [sizeOfEquivalentValueRange_tie (new_wf hv) v (lt63 hv hle) (halfMag_le hv)]
   rcases range_width_bound hv v hle with ⟨h1, h2⟩ | h
   · left; exact ⟨by rw [h1], h2⟩
   · right; exact_mod_cast h
@@ -157,9 +194,9 @@ theorem go_bitLen_is_bit_length (v : Nat) (hv : v < 2 ^ 64) :
   rw [bitLen_tie, bitLen_eq_blen v hv]; rfl
 
 /-- hdr.go's `RecordValues`, translated (receiver threaded functionally, `error` as `none`), is the model's -/
-theorem go_RecordValues_is_model {h : Hist} (wf : WF h) (v : Nat) (hv : v < 2 ^ 63) (n : Int) :
+theorem go_RecordValues_is_model {h : Hist} (wf : WF h) (hh : h.halfMag ≤ 20) (v : Nat) (hv : v < 2 ^ 63) (n : Int) :
     Gen.Hdr.RecordValues (cfgOf h) v n = (recordValues h v n).map cfgOf :=
-  RecordValues_tie wf v hv n
+  RecordValues_tie wf v hv hh n
 
 /-- hdr.go's `RecordValues` returns nil for every value up to the highest trackable one, in every state reachable by recording -/
 theorem go_record_succeeds (hv : Valid minV maxV s) (vs : List Int) (v : Nat) (hle : v ≤ maxV) (n : Int) :
@@ -174,7 +211,8 @@ theorem go_record_succeeds (hv : Valid minV maxV s) (vs : List Int) (v : Nat) (h
       have := hs; unfold SameCfg at this; injection this with _ _ _ h4
     obtain ⟨w1, w2, w3, w4, w5, w6, w7, w8⟩ := wf0
     constructor <;> simp only [← f, ← hh, ← hg] <;> assumption
-  rw [RecordValues_tie wf v (lt63 hv hle) n, Option.isSome_map, recordValues_isSome, ← accepts_congr hs]
+  have hh : (recordAll (new minV maxV s) vs).halfMag ≤ 20 := by rw [← f.2.2.1]; exact halfMag_le hv
+  rw [RecordValues_tie wf v (lt63 hv hle) hh n, Option.isSome_map, recordValues_isSome, ← accepts_congr hs]
   have := index_in_range wf0 (v := v) hle
   simp [accepts, this.1, this.2]
 
